@@ -40,11 +40,13 @@ StepGenerate ==
           ELSE Generate(w, Ev.id) /\ ~lastGen'.err /\ lastGen'.ts = Ev.ts
     /\ Obs
 
+StepReload == Ev.ev = "Reload" /\ Reload /\ Obs
+
 TraceInit == Init /\ i = 1
 TraceNext ==
     /\ i <= Len(Rec)
     /\ i' = i + 1
-    /\ (StepReset \/ StepInsert \/ StepRemove \/ StepExtend \/ StepFromSecrets \/ StepGenerate)
+    /\ (StepReset \/ StepInsert \/ StepRemove \/ StepExtend \/ StepFromSecrets \/ StepGenerate \/ StepReload)
 TraceSpec == TraceInit /\ [][TraceNext]_tvars
 
 C36_LatestIsMax == LatestIsMax
